@@ -825,7 +825,19 @@ func (m *fullMon) c12PodDelete(c *APICall, now time.Time) {
 		if rj.Spec.Template != nil && rj.Spec.Template.TaskPendingTimeoutSeconds != nil && *rj.Spec.Template.TaskPendingTimeoutSeconds >= 0 {
 			pt = *rj.Spec.Template.TaskPendingTimeoutSeconds
 		}
-		if pt > 0 && (truth == nil || truth.Running == nil) && !now.Before(pod.CreationTimestamp.Add(time.Duration(pt)*time.Second)) {
+		// "has not begun running" is judged on the Pod version the controller read
+		neverRan := truth == nil || truth.Running == nil
+		if rv, ok := c.ReadRV["pods/"+pod.Namespace+"/"+pod.Name]; ok && rv != "" {
+			if pv := m.t.podByRV[rv]; pv != nil && pv.UID == pod.UID {
+				neverRan = true
+				for _, cs := range pv.Status.ContainerStatuses {
+					if (cs.State.Running != nil && !cs.State.Running.StartedAt.IsZero()) || (cs.State.Terminated != nil && !cs.State.Terminated.StartedAt.IsZero()) {
+						neverRan = false
+					}
+				}
+			}
+		}
+		if pt > 0 && neverRan && !now.Before(pod.CreationTimestamp.Add(time.Duration(pt)*time.Second)) {
 			reasons = append(reasons, "pending-timeout")
 			m.stat("mon.c12.pending_reaps")
 		}
